@@ -458,6 +458,8 @@ def judge_senc(ctx, c):
     fmt, mode, x = c['fmt'], c['mode'], unhx(c['x'])
     codec = mf.CODECS[fmt]
     scale = scale_of(c['scale'])
+    if c.get('xint'):
+        x = int(x)          # a Python int value (with an int scale: 'divides' is still true division)
     y = x / scale
     exp = codec.encode(y, mode)
     ic = input_class(fmt, y)
@@ -768,6 +770,12 @@ def run(ctx):
         c = {'k': 'senc', 'fmt': fmt, 'nm': spell(fmt), 'mode': rng.choice(modes_of(fmt)), 'scale': sc, 'x': hx(x),
              'routes': S_ENC_ROUTES if rng.random() < 0.3 else [rng.choice(S_ENC_ROUTES)],
              'cls': rng.choice(util.CLASS_NAMES)}
+        if rng.random() < 0.25:
+            # integer-typed values (and, for the int scales, int / int)
+            xi = rng.choice([rng.randint(-40, 40), rng.randint(-3000, 3000), int(s) * rng.randint(-8, 8) + rng.choice([0, 1, -1, int(s) // 2])])
+            if fmt == 'e8m0mxfp':
+                xi = abs(xi) or 1
+            c['x'], c['xint'] = hx(float(xi)), True
         ctx.run_case(judge, c)
         if i % 1999 == 0:
             ctx.sample(c)
